@@ -206,6 +206,37 @@ func secretconn(r *vh.Run) {
 	}
 	do("cfg")
 	R := r.R
+	// a man in the middle that REFLECTS: whatever the node writes (its ephemeral key, its sealed
+	// authentication frame) comes back to it. The two directions of a connection must be separated: the
+	// node must not accept its own ciphertext, let alone authenticate "the peer" as itself.
+	for c := 0; c < r.Scale(3, 12); c++ {
+		loop := newLane()
+		e := &end{in: loop, out: loop}
+		k := crypto.GenPrivKeyEd25519FromSecret([]byte(fmt.Sprintf("verif-c20-reflect-%d", c)))
+		type hs struct {
+			sc  *p2p.SecretConnection
+			err error
+		}
+		done := make(chan hs, 1)
+		go func() {
+			sc, err := p2p.MakeSecretConnection(e, k)
+			done <- hs{sc, err}
+		}()
+		select {
+		case x := <-done:
+			r.Count("reflect.handshake")
+			if x.err == nil && x.sc != nil {
+				r.Fail(vh.Failure{Class: "node-authenticates-its-own-reflection", Detail: "a connection whose other end only echoes the node's own bytes completes the authenticated handshake (remote key = " + fmt.Sprintf("%X", x.sc.RemotePubKey().Bytes()) + "): the two directions are not separated",
+					Ops: []string{"go reflect"}, Got: "handshake ok", Want: "an error"})
+			}
+		case <-time.After(3 * time.Second):
+			loop.mu.Lock()
+			loop.closed = true
+			loop.cond.Broadcast()
+			loop.mu.Unlock()
+			r.Count("reflect.blocked")
+		}
+	}
 	seqs := r.Scale(80, 800)
 	for s := 0; s < seqs; s++ {
 		history = history[:1]
